@@ -45,6 +45,8 @@ type Solver struct {
 	Errors    int
 	Seconds   float64
 	TimeoutMS int
+	pending   []*Term // assertions not yet sent
+	dirty     bool    // something was sent since the last reset
 	Log       io.Writer
 	LastError string
 }
@@ -105,28 +107,34 @@ func (s *Solver) Close() {
 
 // Reset clears all assertions and definitions.
 func (s *Solver) Reset() {
-	s.flush()
-	if s.Kind == "cvc5" {
-		s.send("(reset)\n")
-	} else {
-		s.send("(reset)\n")
+	s.pending = s.pending[:0]
+	s.buf.Reset()
+	if !s.dirty {
+		return
 	}
+	s.send("(reset)\n")
 	s.preamble()
 	s.printer.Reset()
 	s.depth = 0
+	s.dirty = false
 }
 
 func (s *Solver) flush() {
+	for _, t := range s.pending {
+		r := s.printer.Define(&s.buf, t)
+		fmt.Fprintf(&s.buf, "(assert %s)\n", r)
+	}
+	s.pending = s.pending[:0]
 	if s.buf.Len() > 0 {
 		s.send(s.buf.String())
 		s.buf.Reset()
+		s.dirty = true
 	}
 }
 
-// Assert adds t to the current assertion set (buffered until the next check).
+// Assert adds t to the current assertion set (formatted and sent lazily, at the next check).
 func (s *Solver) Assert(t *Term) {
-	r := s.printer.Define(&s.buf, t)
-	fmt.Fprintf(&s.buf, "(assert %s)\n", r)
+	s.pending = append(s.pending, t)
 }
 
 func (s *Solver) readLine() (string, error) {
@@ -160,6 +168,8 @@ func (s *Solver) Check(extra *Term, vars []*Term) (Result, map[string]uint64) {
 	start := time.Now()
 	defer func() { s.Seconds += time.Since(start).Seconds() }()
 	s.Queries++
+	s.flush()
+	s.dirty = true
 	var sb strings.Builder
 	scoped := extra != nil
 	if scoped {
